@@ -8,7 +8,7 @@ import HC.Proofs.Persist
 
 **`live_refinement`** (unbounded, every crypto record with 32-byte non-zero digests): starting from a
 freshly created core (`created`) — or any state satisfying the representation invariant `Rep` —
-**every** sequence of `append_batch` / `clear` / `get` / `has` / `info` calls on the model of the crate
+**every** sequence of `append_batch` / `clear` / `get` / `has` / `info` / `make_read_only` calls on the model of the crate
 (memory state + the four stores, each call's journal applied to the disk) yields exactly the
 observations of the abstract log `LogSpec.Abs` (block list + held set): lengths and byte lengths of
 appends, block bytes of reads (`None` exactly for blocks that are not held), `has`, and
@@ -71,6 +71,7 @@ theorem step_refines (C : Crypto) (hC : HashWF C) (c : Core) (d : Disk) (a : Abs
   | get i => rw [get_refines C c d a h i]; exact ⟨rfl, h⟩
   | has i => rw [has_refines C c d a h i]; exact ⟨rfl, h⟩
   | info => rw [info_refines C c d a h]; exact ⟨rfl, h⟩
+  | makeReadOnly => exact makeReadOnly_refines C hC c d a h
 
 /-- **C01, live part.**  Any sequence of calls from a state satisfying `Rep` is observationally the
     abstract log, and ends in a state satisfying `Rep`. -/
@@ -203,6 +204,14 @@ theorem full_refinement (C : Crypto) (hC : HashWF C) (hS : SignWF C) (hTw : Tree
 /-- non-vacuity: a history with two reopen steps is within the quantifier -/
 example : AllOK {} [.call (.append [[1, 2], []]), .reopen, .call (.clear 0 1), .call (.get 0), .reopen, .call (.append [[3]]), .call .info] := by
   simp [AllOK, Valid, Persist.Limits, Abs.step, totalBytes]
+
+/-- non-vacuity: `make_read_only` in the middle of a history; the abstract log then refuses appends and reports
+    `writeable = false`, also after a reopen -/
+example : AllOK {} [.call (.append [[1]]), .call .makeReadOnly, .call (.append [[2]]), .reopen, .call .info, .call (.clear 0 1)] := by
+  simp [AllOK, Valid, Persist.Limits, Abs.step, totalBytes]
+example : (runA' {} [.call (.append [[1]]), .call .makeReadOnly, .call (.append [[2]]), .reopen, .call .info]).2
+    = [.appended 1 1, .readOnly true, .failed .err, .reopened, .info 1 1 1 false] := by
+  simp [runA', Abs.step', Abs.step, totalBytes, firstMissing]
 
 /-- non-vacuity of the hypothesis on the hash functions: a record with constant non-zero 32-byte digests -/
 example : HashWF { leaf := fun _ => List.replicate 32 1, parent := fun _ _ _ => List.replicate 32 2, tree := fun _ => [],
